@@ -15,10 +15,14 @@ import (
 // excluded_known), and a witness that TestC04Known re-confirms.
 
 type finding struct {
-	id      string
-	sig     func(q *query) bool
+	id string
+	// sig recognises the region from the query alone; steer moves a query out of it
+	sig   func(q *query) bool
+	steer func(q *query)
+	// planSig recognises a region that depends on the plan the analyzer chose (a query in such a
+	// region is skipped while the id is listed)
+	planSig func(q *query, plan string) bool
 	outcome func(ro *fx.Result) bool
-	steer   func(q *query)
 	witness witness
 }
 
@@ -36,7 +40,16 @@ type witness struct {
 const (
 	kfSetOpOffset      = "C04-setop-offset-before-sort"
 	kfDistinctPosition = "C04-distinct-alias-order-by-position"
+	kfReverseMerge     = "C04-reverse-merge-join-null-key"
+	kfLeftMergeRight   = "C04-left-merge-join-order-by-right-key"
 )
+
+func okResult(ro *fx.Result) bool { return ro.OK() }
+
+var joinTables = []string{
+	"CREATE TABLE a (id INT NOT NULL, k INT, KEY ka (k))", "INSERT INTO a VALUES (1, NULL), (2, 5), (3, 5), (4, 7)",
+	"CREATE TABLE b (id INT NOT NULL, k INT NOT NULL, PRIMARY KEY (k, id))", "INSERT INTO b VALUES (7, 5), (1, 9)",
+}
 
 // positionKeys calls f for every key of a SELECT DISTINCT query that the ORDER BY clause refers to
 // by its position in the select list.
@@ -86,13 +99,51 @@ var findings = []finding{
 		// are returned, instead of positions m+1..m+n of the ordering.
 		id:      kfSetOpOffset,
 		sig:     func(q *query) bool { return q.mode == "union" && q.limit >= 0 && q.offset > 0 },
-		outcome: func(ro *fx.Result) bool { return ro.OK() },
+		outcome: okResult,
 		steer:   func(q *query) { q.offset = 0 },
 		witness: witness{
 			setup: []string{"CREATE TABLE t0 (id INT NOT NULL, c0 INT)", "INSERT INTO t0 VALUES (1, 0), (2, 0), (3, 1)"},
 			query: "(SELECT id AS o0 FROM t0 WHERE c0 = 0) UNION ALL (SELECT id AS o0 FROM t0) ORDER BY o0 DESC LIMIT 10 OFFSET 1",
 			base:  "(SELECT id AS o0 FROM t0 WHERE c0 = 0) UNION ALL (SELECT id AS o0 FROM t0)",
 			keys:  []keySpec{{cls: clsNum, desc: true}}, keyPos: []int{0}, limit: 10, offset: 1,
+		},
+	},
+	{
+		// A join planned as a merge join whose ORDER BY <join key> DESC was replaced by reverse
+		// iteration of both indexes: NULL keys then come last, and mergeJoinIter.peekMatch treats a
+		// NULL key in the look-ahead row as a match (Compare returns 0 together with ErrNilOperand),
+		// so rows are duplicated and lost: a(k) = NULL,5,5,7, b(k) = 5,9: a JOIN b ON a.k = b.k ORDER
+		// BY a.k DESC returns three rows instead of two.
+		id:  kfReverseMerge,
+		sig: func(q *query) bool { return false },
+		planSig: func(q *query, plan string) bool {
+			return strings.Contains(plan, "MergeJoin") && strings.Contains(plan, "reverse: true")
+		},
+		outcome: okResult,
+		witness: witness{
+			setup: joinTables,
+			query: "SELECT a.id, b.id, a.k FROM a JOIN b ON a.k = b.k ORDER BY a.k DESC",
+			base:  "SELECT a.id, b.id, a.k FROM a JOIN b ON a.k = b.k",
+			keys:  []keySpec{{cls: clsNum, desc: true}}, keyPos: []int{2}, limit: -1, offset: -1,
+		},
+	},
+	{
+		// LEFT JOIN planned as a (left outer) merge join, ORDER BY a join key column of the RIGHT
+		// table: replaceIdxSort drops the Sort because the right child is read in index order, but
+		// the join's rows come in the order of the left child and the right columns are NULL for
+		// unmatched left rows: a LEFT JOIN b ON a.k = b.k ORDER BY b.k returns b.k = NULL,5,5,NULL.
+		id:  kfLeftMergeRight,
+		sig: func(q *query) bool { return false },
+		planSig: func(q *query, plan string) bool {
+			return strings.Contains(plan, "LeftOuterMergeJoin") && !strings.Contains(plan, "Sort(") && !strings.Contains(plan, "TopN(") &&
+				len(q.keys) > 0 && strings.HasPrefix(q.keys[0].expr, "y.")
+		},
+		outcome: okResult,
+		witness: witness{
+			setup: joinTables,
+			query: "SELECT a.id, b.id, b.k FROM a LEFT JOIN b ON a.k = b.k ORDER BY b.k",
+			base:  "SELECT a.id, b.id, b.k FROM a LEFT JOIN b ON a.k = b.k",
+			keys:  []keySpec{{cls: clsNum}}, keyPos: []int{2}, limit: -1, offset: -1,
 		},
 	},
 }
@@ -108,11 +159,24 @@ func steerAround(st *stats.Collector, q *query) {
 	}
 }
 
-// suppressed reports whether an observed violation matches a listed known finding.
-func suppressed(st *stats.Collector, q *query, ro *fx.Result) bool {
+// skipByPlan reports whether the query, given the plan chosen for it, lies in the region of a
+// listed known finding (it is then not executed).
+func skipByPlan(st *stats.Collector, q *query, plan string) bool {
 	for i := range findings {
 		f := &findings[i]
-		if f.sig(q) && f.outcome(ro) && kf.Suppress(st, f.id) {
+		if f.planSig != nil && kf.Listed(f.id) && f.planSig(q, plan) {
+			st.Excluded(f.id)
+			return true
+		}
+	}
+	return false
+}
+
+// suppressed reports whether an observed violation matches a listed known finding.
+func suppressed(st *stats.Collector, q *query, plan string, ro *fx.Result) bool {
+	for i := range findings {
+		f := &findings[i]
+		if (f.sig(q) || (f.planSig != nil && f.planSig(q, plan))) && f.outcome(ro) && kf.Suppress(st, f.id) {
 			return true
 		}
 	}
